@@ -573,7 +573,7 @@ Definition compile (N : ns) : res (list cinst) :=
         let results := map one comps in
         if existsb (fun r => match r with Some (_, _, u) => u | None => true end) results then Unsupp else
         match flat_map (fun r => match r with Some (_, e, _) => e | None => [] end) results with
-        | _ :: _ as e => Err e
+        | (_ :: _) as e => Err e
         | [] => Ok (flat_map (fun r => match r with Some (ci, _, _) => [ci] | None => [] end) results)
         end
       end
@@ -604,3 +604,16 @@ Definition check_case (x : ns * impl_res) : bool :=
   | Err e, IErr ls => set_eqb loc_eqb e ls
   | _, _ => false
   end.
+
+(* ------------------------------------------------------------------ the naming loop BEFORE fix ef4cac9
+   (kept only for Refuted.v): one iteration, the names already taken are not consulted *)
+Definition assign_one_old (st : nstate) (sc : scope) : nstate :=
+  match pick_name 1 (last (s_loc sc) "") (n_counts st) [] with
+  | Picked c counts => {| n_names := n_names st ++ [(s_loc sc, c)]; n_counts := counts;
+                          n_errs := n_errs st; n_nofuel := n_nofuel st |}
+  | BadName counts => {| n_names := n_names st; n_counts := counts;
+                         n_errs := n_errs st ++ [s_dsl sc]; n_nofuel := n_nofuel st |}
+  | NoFuel => st
+  end.
+Definition assign_names_old (comps : list scope) : nstate :=
+  fold_left assign_one_old comps {| n_names := []; n_counts := []; n_errs := []; n_nofuel := false |}.
